@@ -61,13 +61,17 @@ end VncModel.Ws
 
 namespace VncModel.Ws
 
-theorem Inv_start (co : Byte) (fs : List Frame) (hv : ValidSeq co fs) (opc fin : Byte) (pl : Nat) :
-    Inv (ctxAtHeader [] opc fin pl co) (wireOf fs) (expected co fs) := by
+theorem Inv_start (T : List Byte) (cE co : Byte) (fs : List Frame) (hv : ValidSeq co fs)
+    (hE : endCo co fs = cE) (opc fin : Byte) (pl : Nat) :
+    ∃ lv, Inv T cE lv (ctxAtHeader [] opc fin pl co) (wireOf fs ++ T) (expected co fs) := by
   cases fs with
-  | nil => exact Inv.done opc fin pl co
+  | nil =>
+    simp only [endCo] at hE
+    subst hE
+    exact ⟨false, by simpa [wireOf, expected] using Inv.done (T := T) (cE := co) opc fin pl⟩
   | cons f fs =>
-    have h := Inv.header f fs co co 0 opc fin pl hv (by simp [Frame.header]) (Or.inl rfl)
-    simpa [wireOf, Frame.wire, List.append_assoc] using h
+    have h := Inv.header (T := T) (cE := cE) f fs co co 0 opc fin pl hv hE (by simp [Frame.header]) (Or.inl rfl)
+    exact ⟨true, by simpa [wireOf, Frame.wire, List.append_assoc] using h⟩
 
 def wpOf (f : Frame) (co : Byte) (a : Nat) : Nat :=
   if isDataOp (f.effOp co) then f.header.length else f.header.length + a
@@ -235,9 +239,10 @@ theorem finishChunk_ctxF (f : Frame) (co : Byte) (hok : f.ok co) (st : St) (np :
   rw [hu]
   simp only [hnc, if_false, xorFrom_length]
 
-theorem decodeChunk_frame (hb : B64RoundTrip) (f : Frame) (fs : List Frame) (co : Byte) (a : Nat)
+theorem decodeChunk_frame (hb : B64RoundTrip) (T : List Byte) (cE : Byte) (f : Frame) (fs : List Frame)
+    (co : Byte) (a : Nat)
     (cu rest Vf : List Byte) (rp : Option Nat) (e : Env) (len t : Nat)
-    (hv : ValidSeq co (f :: fs)) (ha : a % 4 = 0) (hcu : cu.length ≤ 3)
+    (hv : ValidSeq co (f :: fs)) (hE : endCo co (f :: fs) = cE) (ha : a % 4 = 0) (hcu : cu.length ≤ 3)
     (hP : f.payload.length = a + cu.length + rest.length) (hrem : Rem (f.effOp co) (cu ++ rest) Vf)
     (ht : t ≤ rest.length) (hlen : 0 < len)
     (hwp : wpOf f co a + cu.length + 1 ≤ BUF) (htb : t ≤ BUF - (wpOf f co a + cu.length) - 1)
@@ -246,8 +251,8 @@ theorem decodeChunk_frame (hb : B64RoundTrip) (f : Frame) (fs : List Frame) (co 
               (BUF - (wpOf f co a + cu.length) - 1) (xorFrom f.mask (a + cu.length) (rest.take t)) = d ∧
     d.e = e ∧ ∃ out V', d.res = (if out = [] then Res.again else Res.data out) ∧ out.length ≤ len ∧
       Vf ++ expected (f.afterCo co) fs = out ++ V' ∧
-      Inv (spor { d.c with st := d.st })
-        (xorFrom f.mask (a + cu.length + t) (rest.drop t) ++ wireOf fs) V' := by
+      ∃ lv, Inv T cE lv (spor { d.c with st := d.st })
+        (xorFrom f.mask (a + cu.length + t) (rest.drop t) ++ (wireOf fs ++ T)) V' := by
   obtain ⟨hok, hvs⟩ := hv
   have hPlt : f.payload.length < 2 ^ 64 := hok.1
   -- the bytes in front of writePos
@@ -326,10 +331,10 @@ theorem decodeChunk_frame (hb : B64RoundTrip) (f : Frame) (fs : List Frame) (co 
     intro h; simp [m, complete, h]
   have hInvFrame : ∀ (rdN : List Byte) (rpN : Option Nat) (stN : St),
       ((rdN = [] ∧ stN = .dataNeeded ∧ rest.drop t ≠ []) ∨ (rdN ≠ [] ∧ stN = .dataAvailable ∧ rpN.isSome)) →
-      Inv (ctxF f co stN (a + cu.length + t) (xorFrom f.mask (a + m) (X.drop m))
+      Inv T cE true (ctxF f co stN (a + cu.length + t) (xorFrom f.mask (a + m) (X.drop m))
             (if isDataOp (f.effOp co) = true then some f.header.length
              else some (wpOf f co a + cu.length + t - (X.drop m).length)) rpN rdN.length rdN)
-          (xorFrom f.mask (a + cu.length + t) (rest.drop t) ++ wireOf fs)
+          (xorFrom f.mask (a + cu.length + t) (rest.drop t) ++ (wireOf fs ++ T))
           (rdN ++ (Vr ++ expected (f.afterCo co) fs)) := by
     intro rdN rpN stN hcase
     have hctx : ctxF f co stN (a + cu.length + t) (xorFrom f.mask (a + m) (X.drop m))
@@ -346,7 +351,7 @@ theorem decodeChunk_frame (hb : B64RoundTrip) (f : Frame) (fs : List Frame) (co 
         xorFrom f.mask (a + m + (X.drop m).length) (rest.drop t) := by
       congr 1; simp only [List.length_drop]; omega
     rw [hpend]
-    refine Inv.frame f fs co (a + m) (X.drop m) (rest.drop t) rdN Vr rpN stN ⟨hok, hvs⟩ ?_ hcu' ?_ ?_ ?_ hcase
+    refine Inv.frame f fs co (a + m) (X.drop m) (rest.drop t) rdN Vr rpN stN ⟨hok, hvs⟩ hE ?_ hcu' ?_ ?_ ?_ hcase
     · intro hne
       have : ¬ t = rest.length := by
         intro h; apply hne; simp [h]
@@ -385,7 +390,8 @@ theorem decodeChunk_frame (hb : B64RoundTrip) (f : Frame) (fs : List Frame) (co 
         rw [hst, spor_ctxF_complete f co hok]
         have h2 : rest.drop t = [] := by simp [hc]
         rw [hVr hc, h2, xorFrom_nil]
-        simpa using Inv_start (f.afterCo co) fs hvs opInvalid f.fin 0
+        obtain ⟨lv, hst'⟩ := Inv_start T cE (f.afterCo co) fs hvs (by simpa [endCo] using hE) opInvalid f.fin 0
+        exact ⟨lv, by simpa using hst'⟩
       · have hne : ¬ (a + cu.length + t = f.payload.length) := fun h' => hc (hnp.mp h')
         have hst : (ctxF f co (if a + cu.length + t = f.payload.length then St.frameComplete else St.dataNeeded)
             (a + cu.length + t) (xorFrom f.mask (a + m) (X.drop m))
@@ -401,7 +407,7 @@ theorem decodeChunk_frame (hb : B64RoundTrip) (f : Frame) (fs : List Frame) (co 
           omega
         have := hInvFrame [] (some (wpOf f co a + cu.length + t - X.length)) .dataNeeded
           (Or.inl ⟨rfl, rfl, hrne⟩)
-        simpa [hout] using this
+        exact ⟨true, by simpa [hout] using this⟩
   · rw [returnData_ctxF f co _ _ _ _ _ out len hout hnpP hPlt]
     by_cases hl : len < out.length
     · simp only [hl, if_true, ctxF_set_st]
@@ -419,8 +425,8 @@ theorem decodeChunk_frame (hb : B64RoundTrip) (f : Frame) (fs : List Frame) (co 
       · simp only [List.length_take]; omega
       · rw [hVf, ← List.append_assoc, ← List.append_assoc, List.take_append_drop, List.append_assoc]
       · rw [spor_ctxF_other _ _ _ (by decide) (by decide)]
-        exact hInvFrame (out.drop len) (some (wpOf f co a + cu.length + t - X.length + len)) .dataAvailable
-          (Or.inr ⟨hdne, rfl, rfl⟩)
+        exact ⟨true, hInvFrame (out.drop len) (some (wpOf f co a + cu.length + t - X.length + len)) .dataAvailable
+          (Or.inr ⟨hdne, rfl, rfl⟩)⟩
     · simp only [hl, if_false, ctxF_set_st]
       refine ⟨out, Vr ++ expected (f.afterCo co) fs, by simp [hout], by omega, by rw [hVf, List.append_assoc], ?_⟩
       by_cases hc : t = rest.length
@@ -429,7 +435,8 @@ theorem decodeChunk_frame (hb : B64RoundTrip) (f : Frame) (fs : List Frame) (co 
         rw [spor_ctxF_complete f co hok]
         have h2 : rest.drop t = [] := by simp [hc]
         rw [hVr hc, h2, xorFrom_nil]
-        simpa using Inv_start (f.afterCo co) fs hvs opInvalid f.fin 0
+        obtain ⟨lv, hst'⟩ := Inv_start T cE (f.afterCo co) fs hvs (by simpa [endCo] using hE) opInvalid f.fin 0
+        exact ⟨lv, by simpa using hst'⟩
       · have hne : ¬ (a + cu.length + t = f.payload.length) := fun h' => hc (hnp.mp h')
         simp only [hne, if_false]
         rw [spor_ctxF_other _ _ _ (by decide) (by decide)]
@@ -439,7 +446,7 @@ theorem decodeChunk_frame (hb : B64RoundTrip) (f : Frame) (fs : List Frame) (co 
           simp only [List.length_drop, List.length_nil] at this
           omega
         have := hInvFrame [] none .dataNeeded (Or.inl ⟨rfl, rfl, hrne⟩)
-        simpa using this
+        exact ⟨true, by simpa using this⟩
 
 end VncModel.Ws
 
@@ -518,17 +525,18 @@ theorem readAndDecode_some (c : Ctx) (e : Env) (len : Nat) (inbuf : List Byte) (
 end VncModel.Ws
 namespace VncModel.Ws
 
-theorem readAndDecode_frame (hb : B64RoundTrip) (f : Frame) (fs : List Frame) (co : Byte) (a : Nat)
+theorem readAndDecode_frame (hb : B64RoundTrip) (T : List Byte) (cE : Byte) (f : Frame) (fs : List Frame)
+    (co : Byte) (a : Nat)
     (cu rest Vf : List Byte) (rp : Option Nat) (e : Env) (len : Nat)
-    (hv : ValidSeq co (f :: fs)) (ha : a % 4 = 0) (hcu : cu.length ≤ 3)
+    (hv : ValidSeq co (f :: fs)) (hE : endCo co (f :: fs) = cE) (ha : a % 4 = 0) (hcu : cu.length ≤ 3)
     (hP : f.payload.length = a + cu.length + rest.length) (hce : rest = [] → cu = [])
     (hrem : Rem (f.effOp co) (cu ++ rest) Vf)
-    (hlen : 0 < len) (hpend : e.pending = xorFrom f.mask (a + cu.length) rest ++ wireOf fs)
+    (hlen : 0 < len) (hpend : e.pending = xorFrom f.mask (a + cu.length) rest ++ (wireOf fs ++ T))
     (hff : e.FaultFree) (hs : e.Safe) :
     ∃ d, readAndDecode (ctxInFrame f co a cu [] rp .dataNeeded) e len [] = d ∧
     d.e.FaultFree ∧ d.e.Safe ∧ ∃ out V', d.res = (if out = [] then Res.again else Res.data out) ∧
       out.length ≤ len ∧ Vf ++ expected (f.afterCo co) fs = out ++ V' ∧
-      Inv (spor { d.c with st := d.st }) d.e.pending V' ∧
+      (∃ lv, Inv T cE lv (spor { d.c with st := d.st }) d.e.pending V') ∧
       d.e.pending.length ≤ e.pending.length ∧
       (out ≠ [] ∨ d.e.pending.length < e.pending.length ∨ e.Stuck ∨ rest = []) := by
   refine ⟨_, rfl, ?_⟩
@@ -571,20 +579,20 @@ theorem readAndDecode_frame (hb : B64RoundTrip) (f : Frame) (fs : List Frame) (c
       rw [hsp, hp', hpend]
       have hrne : rest ≠ [] := by
         intro h; rw [h] at hNle; simp at hNle; omega
-      have := Inv.frame f fs co a cu rest [] Vf rp .dataNeeded hv (fun _ => ha) hcu hP hce hrem
+      have := Inv.frame (T := T) (cE := cE) f fs co a cu rest [] Vf rp .dataNeeded hv hE (fun _ => ha) hcu hP hce hrem
         (Or.inl ⟨rfl, rfl, hrne⟩)
-      simpa using this
+      exact ⟨true, by simpa using this⟩
     · -- t bytes of payload arrive
       subst ho
       simp only
       have htr : t ≤ rest.length := by omega
       have htake : e.pending.take t = xorFrom f.mask (a + cu.length) (rest.take t) := by
         rw [hpend, List.take_append_of_le_length (by rw [xorFrom_length]; exact htr), xorFrom_take]
-      have hdrop : e.pending.drop t = xorFrom f.mask (a + cu.length + t) (rest.drop t) ++ wireOf fs := by
+      have hdrop : e.pending.drop t = xorFrom f.mask (a + cu.length + t) (rest.drop t) ++ (wireOf fs ++ T) := by
         rw [hpend, List.drop_append_of_le_length (by rw [xorFrom_length]; exact htr), xorFrom_drop]
       rw [htake]
       obtain ⟨d, hd, hde, out, V', h1, h2, h3, h4⟩ :=
-        decodeChunk_frame hb f fs co a cu rest Vf rp e' len t hv ha hcu hP hrem htr hlen (by omega)
+        decodeChunk_frame hb T cE f fs co a cu rest Vf rp e' len t hv hE ha hcu hP hrem htr hlen (by omega)
           (by omega) (by omega)
       rw [hd, hde]
       refine ⟨hff', hs', out, V', h1, h2, h3, ?_, ?_, Or.inr (Or.inl ?_)⟩
@@ -600,7 +608,7 @@ theorem readAndDecode_frame (hb : B64RoundTrip) (f : Frame) (fs : List Frame) (c
         split at this <;> omega
       exact List.length_eq_zero_iff.mp this
     obtain ⟨d, hd, hde, out, V', h1, h2, h3, h4⟩ :=
-      decodeChunk_frame hb f fs co a cu rest Vf rp e len 0 hv ha hcu hP hrem (by omega) hlen (by omega)
+      decodeChunk_frame hb T cE f fs co a cu rest Vf rp e len 0 hv hE ha hcu hP hrem (by omega) hlen (by omega)
         (by omega) (by omega)
     have hb0 : xorFrom f.mask (a + cu.length) (rest.take 0) = [] := by simp [xorFrom_nil]
     rw [hb0] at hd
